@@ -179,7 +179,10 @@ PROPS = {
     ),
     "C20": dict(
         lean=["GolibsVerif.Props.C20"],
-        seq=[dict(comp="zip", stateless=True, decisive=lambda d: d["op"].startswith("mon C20"))],
+        # what UnzipToFolder / ZipFolder∘UnzipToFolder leave on the real file system (paths AND contents) is the
+        # property's subject: a different result is a failing input; only the lexical helper ops (clean / join,
+        # which tie path/filepath to the model's cleanAbs) are internal
+        seq=[dict(comp="zip", stateless=True, decisive=lambda d: d["op"].startswith("mon C20") or d["op"].split(" ")[0] in ("unzip", "roundtrip"))],
         rule="cases = calls on the real file system inside a sandbox under /verif/.work: (1) 300 absolute paths over segments {a,b,..,.,empty,'c d',unicode} through filepath.Clean / filepath.Join vs the lexical model; (2) hostile archives built with archive/zip (entry names with '..', absolute names, '.', 'a/..', directory/file clashes in both orders, directory entries, duplicate names, unicode) + 150 (thorough 2000) random archives, with a before/after snapshot of everything three levels above the destination; (3) 60 (600) random trees (depth 0..4, empty/binary/multi-line contents, names with spaces, dots, unicode, *.skip) x filter {all, notskip, none} x recursive x source-directory spelling {abs, abs/, ./rel, rel/, rel}; non-trivial = tree depth >= 2 with a filter rejecting something, or an entry name containing '..' or starting with '/'; distinct by op text",
         assumptions=["regular files and directories only (no symlinks, permissions, special files)", "the destination directory is an absolute clean path"],
         trusted=["modelled, not verified: archive/zip codec, the real file system (os.Create/MkdirAll/Walk); path/filepath.Clean/Join/Rel are modelled lexically (`cleanAbs`) and compared with the real functions by the run; entry names are split at '/' by the driver"],
